@@ -51,7 +51,7 @@ pub fn run(cfg: &Cfg) -> Report {
     let seed = cfg.seed;
 
     // (A) exhaustive comparison with brute force over all involution tuples
-    let bounds: Vec<(usize, usize)> = cfg.tier.pick(vec![(1, 8), (2, 7), (3, 6), (4, 4)], vec![(1, 10), (2, 8), (3, 7), (4, 5)]);
+    let bounds: Vec<(usize, usize)> = cfg.tier.pick(vec![(1, 9), (2, 8), (3, 6), (4, 5)], vec![(1, 10), (2, 8), (3, 7), (4, 5)]);
     let mut jobs: Vec<(usize, usize)> = vec![];
     for &(dim, nmax) in &bounds {
         for n in 1..=nmax {
